@@ -38,6 +38,10 @@ func main() {
 		harness.SeedRunMain(args[1], args[2])
 		return
 	}
+	if len(args) == 3 && args[0] == "fuzzdeepprobe" {
+		harness.FuzzDeepProbeMain(args[1], args[2])
+		return
+	}
 	if len(args) == 1 && args[0] == "panicnilprobe" {
 		harness.PanicNilProbeMain()
 		return
